@@ -355,3 +355,65 @@ Proof.
   split. { vm_compute. auto. }
   intros f H. vm_compute in H. destruct H as [H|[H|[H|[]]]]; subst f; eexists; vm_compute; reflexivity.
 Qed.
+
+(* ------------------------------------------------------------------ statements of Properties.v with longer proofs *)
+Lemma shape_nonnull_refuted_proof :
+  exists em p d n, In n (pvalid p (tname_of d)) /\ f_optional (meta_of n) = false /\
+                   exists j, marshal em p d = Ok j /\ jget (pkey n) j = Some JNull.
+Proof.
+  exists [], (PMessage w_T [w_obj] [] OneNone []), (PMsg w_T [] [PFE w_y 1 FAbsent]), w_obj.
+  split. { simpl. auto. }
+  split. { exact (proj1 nonnull_witness). }
+  eexists. split. { exact (proj2 nonnull_witness). } reflexivity.
+Qed.
+
+Lemma field_independence_refuted_proof :
+  exists em p1 p2 d d' j1 j2 n,
+    p_oneof p1 = p_oneof p2 /\ p_members p1 = p_members p2 /\
+    marshal em p1 d = Ok j1 /\ marshal em p2 d = Ok j2 /\ unwrap_oneof (p_oneof p1) d = Ok d' /\
+    Forall nonflat (pvalid p1 (tname_of d')) /\ Forall nonflat (pvalid p2 (tname_of d')) /\
+    In n (pvalid p1 (tname_of d')) /\ In n (pvalid p2 (tname_of d')) /\
+    jget (pkey n) j1 <> jget (pkey n) j2.
+Proof.
+  destruct dup_key_witness as (I1 & I2 & N1 & N2 & j1 & j2 & M1 & M2 & G1 & G2).
+  exists [], w_p1, w_p2, w_data, w_data, j1, j2, w_na.
+  repeat split; auto. rewrite G1, G2. discriminate.
+Qed.
+
+Lemma field_independence_flatten_refuted_proof :
+  exists em p1 p2 d j1 j2 n,
+    NoDup (map pkey (pvalid p1 (tname_of d))) /\ NoDup (map pkey (pvalid p2 (tname_of d))) /\
+    marshal em p1 d = Ok j1 /\ marshal em p2 d = Ok j2 /\
+    In n (pvalid p1 (tname_of d)) /\ In n (pvalid p2 (tname_of d)) /\
+    jget (pkey n) j1 <> jget (pkey n) j2.
+Proof.
+  destruct flatten_witness as (ND & j1 & j2 & M1 & M2 & G1 & G2).
+  exists [], w_p3, w_p2, w_data2, j1, j2, w_na.
+  repeat split; auto.
+  - simpl. repeat constructor. simpl. tauto.
+  - simpl. auto.
+  - simpl. auto.
+  - rewrite G1, G2. discriminate.
+Qed.
+
+Lemma field_independence_partial_proof : forall em p1 p2 d d' j1 j2 n,
+  p_oneof p1 = p_oneof p2 -> p_members p1 = p_members p2 ->
+  marshal em p1 d = Ok j1 -> marshal em p2 d = Ok j2 ->
+  unwrap_oneof (p_oneof p1) d = Ok d' ->
+  Forall nonflat (pvalid p1 (tname_of d')) -> Forall nonflat (pvalid p2 (tname_of d')) ->
+  In n (pvalid p1 (tname_of d')) -> In n (pvalid p2 (tname_of d')) ->
+  key_coherent em (p_members p1) d' n (pvalid p1 (tname_of d')) ->
+  key_coherent em (p_members p2) d' n (pvalid p2 (tname_of d')) ->
+  jget (pkey n) j1 = jget (pkey n) j2.
+Proof.
+  intros. eapply field_independence_gen; eauto. apply same_node_refl.
+Qed.
+
+Lemma reformulation_subset_refuted_proof :
+  exists em p1 p2 d e j2,
+    incl (pvalid p2 (tname_of d)) (pvalid p1 (tname_of d)) /\
+    marshal em p1 d = Err e /\ marshal em p2 d = Ok j2.
+Proof.
+  destruct error_witness as (I & E & O).
+  exists [], w_p4, w_p2, w_data3, EOneofUnset, (JObj [(w_x, JStr w_1)]). auto.
+Qed.
